@@ -2,7 +2,7 @@
 From Coq Require Import ZArith List Bool Lia ZifyBool Arith.
 From Coq Require Import QArith.
 From NV.Generated Require Import GridHash.
-From NV.C11 Require Import Model Proofs Proofs2 ModelQ Proofs3 Proofs4 Proofs5.
+From NV.C11 Require Import Model Proofs Proofs2 ModelQ Proofs3 Proofs4 Proofs5 Proofs6.
 Close Scope Q_scope.
 Import ListNotations.
 Open Scope Z_scope.
@@ -121,6 +121,37 @@ Proof.
   destruct H as [[]|H]; exact H.
 Qed.
 Print Assumptions kruskal_rows_are_graph_edges.
+
+(* ---- spanning forests (mst, kruskal): acyclic + spanning certificate ---- *)
+(* is_forest T: T can be built edge by edge, each edge joining two vertices not
+   connected by the edges before it (no edge closes a cycle).  For ALL V, T:
+   the label-merging check accepts only such edge lists. *)
+Theorem forest_certificate_sound :
+  forall V T, forest_check V T = true -> is_forest T.
+Proof. exact forest_check_sound. Qed.
+Print Assumptions forest_certificate_sound.
+
+(* T (undirected tree edges as returned, one orientation) is a spanning forest
+   of the graph E: acyclic, and it connects exactly the vertex pairs that E
+   connects.  For mst(X), E is the complete graph and lab = all zeros. *)
+Theorem spanning_forest_certificate_sound :
+  forall V E T lab,
+  forest_check V T = true -> cc_check V T lab = true -> cc_check V E lab = true ->
+  is_forest T /\ forall u v, (u < V)%nat -> (v < V)%nat -> (connected T u v <-> connected E u v).
+Proof.
+  intros V E T lab HF HT HE. split; [now apply (forest_check_sound V)|].
+  intros u v Hu Hv. pose proof (cc_check_sound V T lab HT u v Hu Hv) as A.
+  pose proof (cc_check_sound V E lab HE u v Hu Hv) as B. tauto.
+Qed.
+Print Assumptions spanning_forest_certificate_sound.
+
+(* non-vacuity: a path is accepted; the 8-cycle through the border of the 3x3
+   lattice (the shape a wrong Boruvka merge returns) is rejected; so is a doubled edge *)
+Example forest_check_examples :
+  forest_check 4 (mkE [(0,1,1); (2,1,1); (3,2,5)]) = true /\
+  forest_check 8 (mkE [(0,2,1); (2,7,1); (7,1,1); (1,5,1); (5,4,1); (4,3,1); (3,6,1); (6,0,1)]) = false /\
+  forest_check 2 (mkE [(0,1,1); (1,0,1)]) = false.
+Proof. vm_compute. repeat split; reflexivity. Qed.
 
 (* ---- builders --------------------------------------------------------- *)
 (* Former finding knn/ties-fewer-than-k (fixed in fd0cf56), now for ALL distance
